@@ -61,10 +61,49 @@ var vfLink string
 
 // replacement for (*DiskCache).links: the directory holds one manifest, stored under an arbitrary
 // case variant of the name that is looked up
+var vfSibling string // a second manifest in the directory ("" = none)
+
 func vfLinks(c *DiskCache) func(yield func(string, error) bool) {
 	return func(yield func(string, error) bool) {
-		yield(vfLink, nil)
+		// lexical (byte-wise) order, as fs.Glob returns the directory
+		if vfSibling != "" && vfSibling < vfLink {
+			if !yield(vfSibling, nil) {
+				return
+			}
+		}
+		if !yield(vfLink, nil) {
+			return
+		}
+		if vfSibling != "" && !(vfSibling < vfLink) {
+			yield(vfSibling, nil)
+		}
 	}
+}
+
+func vfFlipCase(base string, from int, tag string) string {
+	b := []byte(base)
+	for i := from; i < len(b); i++ {
+		ch := b[i]
+		letter := ch >= 'a' && ch <= 'z' || ch >= 'A' && ch <= 'Z'
+		if letter && verifNondetBool(tag) {
+			b[i] = ch ^ 0x20
+		}
+	}
+	return string(b)
+}
+
+// VerifC13CaseLookupSibling: the directory holds the manifest of h/n/m:t under an arbitrary spelling AND a
+// second manifest (another tag or model, in upper or lower case, sorting before or after it): every
+// spelling of the name still addresses the stored manifest.
+func VerifC13CaseLookupSibling() {
+	vfLink = vfFlipCase("manifests/h/n/m/t", len("manifests/"), "stored")
+	vfSibling = []string{"manifests/H/N/M/U", "manifests/h/n/m/s", "manifests/H/N/L/T", "manifests/h/n/m-x/t", "manifests/h/n/Zeta/t"}[verifChoice(5)]
+	name := vfFlipCase("h/n/m:t", 0, "asked")
+	c := &DiskCache{dir: "/cache"}
+	got, err := c.manifestPath(name)
+	verifReach("looked-up")
+	verifAssert(err == nil, "lookup-succeeds")
+	verifAssert(got == "/cache/"+vfLink, "case-variant-addresses-the-stored-manifest")
 }
 
 func VerifC13CaseLookup(maxLen int) {
@@ -82,7 +121,7 @@ func VerifC13CaseLookup(maxLen int) {
 			b[i] = ch ^ 0x20
 		}
 	}
-	vfLink = string(b)
+	vfLink, vfSibling = string(b), ""
 	c := &DiskCache{dir: "/cache"}
 	got, err := c.manifestPath(s)
 	verifReach("looked-up")
